@@ -264,7 +264,7 @@ func rangesFor(kind string, h int64) []rng {
 		return []rng{{"only", chainLen, chainLen + h}, {"all", 1, chainLen + h}}
 	}
 	lo, hi := h, h
-	if isIn(forgeKinds, kind) {
+	if isIn(forgeKinds, kind) || isIn(raceKinds, kind) {
 		hi = h + 1
 	}
 	cand := []rng{{"only", lo, hi}, {"prefix", 1, hi}, {"suffix", lo, chainLen}, {"all", 1, chainLen}}
@@ -317,7 +317,7 @@ func quickSet(c *chain) []*scenario {
 		{"forge-otherset", changeHeight}, {"forge-otherset", changeHeight + 1}, {"forge-oldmajority", changeHeight + 1},
 		{"forge-exact23", changeHeight + 1}, {"forge-exact23", 1}, {"forge-nonvalidators", 1}, {"lc-insufficient", changeHeight + 2}, {"lc-insufficient", 2},
 		{"lc-nil-block", changeHeight + 2}, {"tx-changed+fix", 5}, {"tx-added+fix", 1}, {"tx-added+fix", changeHeight + 1},
-		{"lc-nil", 2}, {"lc-nil", 6}, {"lc-all-nil", 2}, {"lc-all-nil", changeHeight + 2}, {"hdr-extra", 1}, {"lc-removed", 6},
+		{"lc-nil", 2}, {"lc-nil", 6}, {"big-hangup", 1}, {"big-hangup", 3}, {"lc-all-nil", 2}, {"lc-all-nil", changeHeight + 2}, {"hdr-extra", 1}, {"lc-removed", 6},
 	}
 	for _, e := range extra {
 		if makePlan(c, e.k, e.h) == nil {
